@@ -52,6 +52,9 @@ func CtxHash(ctx context.Context) uint32 {
 	return 0
 }
 
+// MkCtx returns a context carrying hash h (what a context-returning provider produces).
+func MkCtx(h uint32) context.Context { return context.WithValue(context.Background(), ctxKey{}, h) }
+
 var (
 	chanMu  sync.Mutex
 	chanReg = map[uintptr]uint32{}
